@@ -101,6 +101,9 @@ func ccHook(point string, a ...interface{}) {
 	if d > 0 && cc.delayK != 0 && cc.delayK != k {
 		d = 0
 	}
+	if dk, ok := cc.delays[fmt.Sprintf("%s#%d", point, k)]; ok { // a delay for this point on connection k only
+		d = dk
+	}
 	// events are emitted under the state lock so that their order is the order of the hook calls
 	switch point {
 	case "client.reconnect.dialed":
@@ -137,6 +140,7 @@ type ccServer struct {
 	ln    net.Listener
 	mu    sync.Mutex
 	conns map[int]net.Conn // by k
+	delay map[int]time.Duration // request -> how long the server takes to answer it
 }
 
 func (s *ccServer) serve() {
@@ -172,11 +176,27 @@ func (s *ccServer) serve() {
 				cc.mu.Lock()
 				rec := cc.rec
 				cc.mu.Unlock()
+				s.mu.Lock()
+				d := s.delay[r]
+				s.mu.Unlock()
+				rsp := append(append([]byte{}, hdr...), body...)
 				if rec != nil {
 					rec.Emit("SrvRecv", "k", k, "r", r)
+				}
+				if d > 0 { // a slow answer: the connection keeps being read meanwhile
+					go func() {
+						time.Sleep(d)
+						if rec != nil {
+							rec.Emit("SrvReply", "k", k, "r", r)
+						}
+						c.Write(rsp)
+					}()
+					continue
+				}
+				if rec != nil {
 					rec.Emit("SrvReply", "k", k, "r", r)
 				}
-				c.Write(append(append([]byte{}, hdr...), body...))
+				c.Write(rsp)
 			}
 		}(c)
 	}
@@ -188,7 +208,7 @@ func ccScenario(rng *rand.Rand, timeout time.Duration) []tr.Ev {
 	if err != nil {
 		panic(err)
 	}
-	srv := &ccServer{ln: ln, conns: map[int]net.Conn{}}
+	srv := &ccServer{ln: ln, conns: map[int]net.Conn{}, delay: map[int]time.Duration{}}
 	go srv.serve()
 	client := transport.NewTarsClient(ln.Addr().String(), ccProto{}, &transport.TarsClientConf{Proto: "tcp", QueueLen: 100,
 		IdleTimeout: time.Hour, ReadTimeout: 100 * time.Millisecond, DialTimeout: time.Second})
@@ -230,7 +250,75 @@ func ccScenario(rng *rand.Rand, timeout time.Duration) []tr.Ev {
 		rec.Emit("CallEnd", "r", r, "ok", ok, "ms", int(time.Since(t0).Milliseconds()))
 		return ok
 	}
+	closeNewest := func() {
+		srv.mu.Lock()
+		k := 0
+		for kk := range srv.conns {
+			if kk > k {
+				k = kk
+			}
+		}
+		c := srv.conns[k]
+		delete(srv.conns, k)
+		srv.mu.Unlock()
+		if c != nil {
+			rec.Emit("SrvClose", "k", k)
+			if tc, ok := c.(*net.TCPConn); ok && rng.Intn(2) == 0 {
+				tc.SetLinger(0) // abortive close: RST instead of FIN (a killed or restarted server)
+			}
+			c.Close()
+		}
+	}
 	r := 0
+	if rng.Intn(4) == 0 {
+		// overlapping calls: the server closes the connection while a request that has passed the sender's liveness check is
+		// still waiting to be written (the sender is held at the hook before conn.Write); a later call, issued after the
+		// client has seen the close, is answered slowly on the new connection while the old sender's write fails
+		call(1)
+		hold := time.Duration(30+rng.Intn(30)) * time.Millisecond
+		cc.mu.Lock()
+		cc.delays = map[string]time.Duration{"client.send.dequeued": hold}
+		cc.delayK = cc.nconn
+		cc.mu.Unlock()
+		srv.mu.Lock()
+		srv.delay[3] = hold + time.Duration(10+rng.Intn(40))*time.Millisecond
+		srv.mu.Unlock()
+		done := make(chan struct{})
+		go func() { call(2); close(done) }()
+		time.Sleep(time.Duration(3+rng.Intn(5)) * time.Millisecond)
+		closeNewest()
+		time.Sleep(time.Duration(5+rng.Intn(10)) * time.Millisecond)
+		call(3)
+		<-done
+		if rng.Intn(2) == 0 {
+			call(4)
+		}
+		r = 6
+	}
+	if r == 0 && rng.Intn(4) == 0 {
+		// two closes in a row while calls are under way: request 2 is caught by the close of connection 1 after its liveness
+		// check (write error -> failure queue); call 3, issued after the client has seen that close, dials connection 2, whose
+		// sender is slow to reach its select; the server closes connection 2 as well; when the sender of connection 2 then
+		// takes request 3 it knows the connection is dead and must hand the request over although the one-slot failure queue is
+		// still occupied by request 2
+		call(1)
+		cc.mu.Lock()
+		cc.delays = map[string]time.Duration{"client.send.dequeued#1": 40 * time.Millisecond, "client.send.beforeSelect#2": 55 * time.Millisecond}
+		cc.delayK = 0
+		cc.mu.Unlock()
+		d2 := make(chan struct{})
+		go func() { call(2); close(d2) }()
+		time.Sleep(5 * time.Millisecond)
+		closeNewest() // connection 1
+		time.Sleep(10 * time.Millisecond)
+		d3 := make(chan struct{})
+		go func() { call(3); close(d3) }()
+		time.Sleep(35 * time.Millisecond)
+		closeNewest() // connection 2 (if it has been dialled by now)
+		<-d2
+		<-d3
+		r = 6
+	}
 	ncalls := 2 + rng.Intn(3)
 	for i := 0; i < ncalls && r < 6; i++ {
 		r++
@@ -240,23 +328,7 @@ func ccScenario(rng *rand.Rand, timeout time.Duration) []tr.Ev {
 		}
 		if rng.Intn(4) != 0 {
 			// the server closes the connection that is in use while the client is idle
-			srv.mu.Lock()
-			k := 0
-			for kk := range srv.conns {
-				if kk > k {
-					k = kk
-				}
-			}
-			c := srv.conns[k]
-			delete(srv.conns, k)
-			srv.mu.Unlock()
-			if c != nil {
-				rec.Emit("SrvClose", "k", k)
-				if tc, ok := c.(*net.TCPConn); ok && rng.Intn(2) == 0 {
-					tc.SetLinger(0) // abortive close: RST instead of FIN (a killed or restarted server)
-				}
-				c.Close()
-			}
+			closeNewest()
 		}
 		time.Sleep(time.Duration([]int{0, 1, 5, 30, 200, 1100}[rng.Intn(6)]) * time.Millisecond)
 	}
